@@ -149,7 +149,9 @@ impl Check for C08 {
                         if !(x.is_i64() && y.is_i64()) {
                             continue;
                         }
-                        let has_inter = d.any_node(&mut |n| matches!(n, D::Inter(_))) || case.env.defs.iter().any(|(_, x)| x.any_node(&mut |n| matches!(n, D::Inter(_))));
+                        // strict mode judges undeclared keys per member of an intersection the compiler did not merge
+                        // (listed finding): only where one of the two spellings has such an intersection
+                        let has_inter = case.used1.contains_key("inter_unmerged_or_named") || case.used2.contains_key("inter_unmerged_or_named");
                         let suffix = if mode == "strict" && has_inter { ":intersection_member_named_or_inline" } else { "" };
                         out.mismatch(
                             ctx,
@@ -281,7 +283,7 @@ pub enum C13Case {
 
 fn digest_string(s: &mut Src, len: usize) -> String {
     // mixes 1-, 2-, 3- and 4-byte UTF-8 sequences
-    let alphabet = ["a", "Z", "0", "-", "é", "ß", "€", "漢", "😀", "\n", "\u{0}", "\"", "\\"];
+    let alphabet = ["a", "Z", "0", "-", "é", "ß", "€", "漢", "東", "京", "の", "😀", "\n", "\u{0}", "\"", "\\"];
     let mut out = String::new();
     let mut bytes = 0;
     while bytes < len {
@@ -337,6 +339,14 @@ impl C13 {
                 "digest_is_not_sha256",
                 format!("digestHex() is not the SHA-256 of the {} bytes written ({} vs {})", r["bytes"], r["got"], r["want"]),
                 json!({"ops": ops, "bytes": r["bytes"], "got": r["got"], "want": r["want"]}),
+            );
+        }
+        if r["incomplete"].as_array().map(|a| !a.is_empty()).unwrap_or(false) {
+            out.mismatch(
+                ctx,
+                "digest_encoding_drops_string_bytes",
+                format!("a string written to the hash does not reach it in full: {}", r["incomplete"]),
+                json!({"ops": ops, "incomplete": r["incomplete"]}),
             );
         }
         let bytes = r["bytes"].as_u64().unwrap_or(0);
@@ -436,10 +446,11 @@ impl Check for C13 {
                 let (env, roots) = gen_env_and_roots(s, &cfg, 1);
                 let d1 = roots[0].clone();
                 let d2 = crate::den::mutate_type(&d1, s, &cfg, env.defs.len());
-                let mut src0 = Src::new(&[]);
-                let (p1, _) = render_program(&env, &[("P0".into(), d1.clone())], RenderCfg::plain(), &mut src0, "");
-                let mut src1 = Src::new(&[]);
-                let (p2, _) = render_program(&env, &[("P0".into(), d2.clone())], RenderCfg::plain(), &mut src1, "");
+                // utility spellings matter here: Partial<...>, optional mapped members and Record are compiled to
+                // wrappers of their own (optional-field, index signature) whose presence must show in the digest
+                let rc = RenderCfg { feats: vec![Feat::Utility], eagerness: 4 };
+                let (p1, _) = render_program(&env, &[("P0".into(), d1.clone())], rc.clone(), s, "");
+                let (p2, _) = render_program(&env, &[("P0".into(), d2.clone())], rc, s, "");
                 let mut values: Vec<JsVal> = vec![];
                 for d in [&d1, &d2] {
                     for (v, _) in gen_values(&env, d, s, Mode::Open, 8, 6, 2) {
@@ -700,7 +711,7 @@ impl Check for C15 {
                         let has = |pred: &dyn Fn(&D) -> bool| d.any_node(&mut |n| pred(n)) || case.env.defs.iter().any(|(_, x)| x.any_node(&mut |n| pred(n)));
                         let suffix = if has(&|n| matches!(n, D::Tpl(parts) if parts.iter().any(|p| matches!(p, crate::den::TplPart::OneOf(_))))) {
                             ":template_union_placeholder"
-                        } else if mode == "strict" && has(&|n| matches!(n, D::Inter(_))) {
+                        } else if mode == "strict" && has(&|n| matches!(n, D::Inter(_))) && case.used.contains_key("inter_unmerged_or_named") {
                             ":intersection_member_named_or_inline"
                         } else {
                             ""
